@@ -2,7 +2,7 @@
    Statements only (copied from the lemma libraries); every proof is a bare
    `exact`; see the cited files in coq/proofs for the proofs. *)
 From Coq Require Import List NArith ZArith Bool Arith Sorting.Sorted Sorting.Permutation.
-From D2P Require Import Str Err Xml TableTypes Tables Fmt NumFmt Bullets Merge Collector Walk Iter Output ShapeFacts TokFacts FrameFacts BulletsFacts NumFmtFacts MergeFacts TotalFacts TablesFacts.
+From D2P Require Import Str Err Xml TableTypes Tables Fmt NumFmt Bullets Merge Collector Walk Iter Output ShapeFacts TokFacts FrameFacts BulletsFacts NumFmtFacts MergeFacts TotalFacts TablesFacts GridFacts TotalTables.
 Import ListNotations.
 
 (* for EVERY table-free, comment-range-free element tree: if the evaluation of each single element succeeds (required ids present, numbers parse, check-box and drop-down values known, formatting renders to non-blank tags), the whole walk succeeds - exceptions never emerge from the state machine, whatever the nesting *)
@@ -73,3 +73,55 @@ Theorem C13_close_handlers_match_source :
   sort_strs modelled_close_methods = sort_strs close_methods.
 Proof. exact close_handlers_match_source. Qed.
 Print Assumptions C13_close_handlers_match_source.
+
+(* TABLES AND COMMENT RANGES INCLUDED: for every element tree in which each element's local evaluation succeeds (as before; for a table cell: its properties gather, gridSpan parses, and its last paragraph-bearing child is a paragraph or a wrapper chain ending in one - tc_ok), the whole walk succeeds, whatever the nesting, for both settings of duplicate_merged_cells *)
+Theorem C13_walk_total_with_tables :
+  forall v path t, all_local_ok2 v t = true ->
+  exists s, collect_from v path t = Ok s.
+Proof. exact collect_total_tables. Qed.
+Print Assumptions C13_walk_total_with_tables.
+
+(* and all three views of the result render *)
+Theorem C13_rendering_total_with_tables :
+  forall v path t, all_local_ok2 v t = true ->
+  exists s ps rs r,
+    collect_from v path t = Ok s
+    /\ pars_at 4 (c_tree s) = Ok ps
+    /\ mapM (par_run_strings (html_on v)) ps = Ok rs
+    /\ get_par_strings (html_on v) (pars_view s) = Ok r.
+Proof. exact rendering_total_tables. Qed.
+Print Assumptions C13_rendering_total_with_tables.
+
+(* the exact condition under which closing a table cell succeeds: the caret's rightmost spine reaches a row (and a cell, when a horizontally merged cell is duplicated); otherwise IndexError *)
+Theorem C13_close_cell_exact :
+  forall v e ks s pr g,
+  J s -> gather_Pr e ks = Ok pr -> span_of pr = Ok g ->
+  ((exists s', close_table_cell v e ks s = Ok s')
+   <-> spine_ok 3 (c_tree s) /\ (env_dup v = true -> (1 < g)%Z -> spine_ok 4 (c_tree s))).
+Proof. exact close_table_cell_ok_iff. Qed.
+Print Assumptions C13_close_cell_exact.
+
+(* FINDING (replayed on /repo): a gridSpan cell whose content is a wrapper holding a paragraph and then a nested content control raises IndexError with duplicate_merged_cells=True (fine with False): the structural clause cannot be weakened to 'the cell contains a paragraph' *)
+Theorem C13_nested_controls_in_merged_cell_refuted :
+  exists t, forall html,
+    all_local_ok2_weak (tt_env html true) t = true
+    /\ collect_from (tt_env html true) [] t = Err IndexError
+    /\ all_local_ok2_weak (tt_env html false) t = true
+    /\ exists s, collect_from (tt_env html false) [] t = Ok s.
+Proof. exact walk_total_tables_dup_counterexample. Qed.
+Print Assumptions C13_nested_controls_in_merged_cell_refuted.
+
+(* likewise a cell whose only block is a custom-XML wrapper holding a wrapped paragraph and then a nested table (both settings) *)
+Theorem C13_wrapped_nested_table_refuted :
+  exists t, forall html dup,
+    all_local_ok2_weak (tt_env html dup) t = true
+    /\ collect_from (tt_env html dup) [] t = Err IndexError.
+Proof. exact walk_total_tables_counterexample. Qed.
+Print Assumptions C13_wrapped_nested_table_refuted.
+
+(* the table-free hypothesis of C13_walk_total is a special case *)
+Theorem C13_earlier_theorem_is_an_instance :
+  forall v,
+  forall t, all_local_ok' v t = true -> all_local_ok2 v t = true.
+Proof. exact all_local_ok'_all_local_ok2. Qed.
+Print Assumptions C13_earlier_theorem_is_an_instance.
